@@ -41,6 +41,10 @@ type router struct {
 	mu    sync.Mutex
 	calls [][]mh.Multihash
 	fail  map[int]bool
+	// cumulative
+	readyCalls int
+	okKeys     int // multihashes of router calls that succeeded
+	lastOK     int
 }
 
 var errRouter = errors.New("scripted router error")
@@ -53,6 +57,8 @@ func (r *router) record(ks []mh.Multihash) error {
 	if r.fail[i] {
 		return errRouter
 	}
+	r.okKeys += len(ks)
+	r.lastOK = len(ks)
 	return nil
 }
 
@@ -63,6 +69,15 @@ func (r *router) Provide(_ context.Context, c cid.Cid, _ bool) error {
 type manyRouter struct{ *router }
 
 func (r manyRouter) ProvideMany(_ context.Context, ks []mh.Multihash) error { return r.record(ks) }
+
+// routers that also implement provider.Ready (always ready; a false answer makes Reprovide sleep for a minute)
+type readyRouter struct{ *router }
+
+func (r readyRouter) Ready() bool { r.mu.Lock(); r.readyCalls++; r.mu.Unlock(); return true }
+
+type readyManyRouter struct{ manyRouter }
+
+func (r readyManyRouter) Ready() bool { r.mu.Lock(); r.readyCalls++; r.mu.Unlock(); return true }
 
 func keyLess(a, b string) bool {
 	fa, fb := strings.Split(a, "."), strings.Split(b, ".")
@@ -117,14 +132,25 @@ func exec(c vh.Case, o *vh.Out) {
 			if sys != nil {
 				sys.Close()
 			}
-			many = f[1] == "1"
+			many = f[1] == "1" || f[1] == "3"
 			rt = &router{}
 			al, _ = bsx.ParseAllowlist(f[4:])
 			var r provider.Provide = rt
-			if many {
+			switch f[1] {
+			case "1":
 				r = manyRouter{rt}
+			case "2":
+				r = readyRouter{rt}
+				o.Kind("ready-router")
+			case "3":
+				r = readyManyRouter{manyRouter{rt}}
+				o.Kind("ready-router")
 			}
-			opts := []provider.Option{provider.Online(r), provider.Allowlist(al), provider.ReproviderInterval(0)}
+			opts := []provider.Option{provider.Online(r), provider.Allowlist(al), provider.ReproviderInterval(0),
+				provider.KeyProvider(chanOf(nil))}
+			if len(f[4:])%2 == 0 { // options without influence on Reprovide
+				opts = append(opts, provider.DatastorePrefix(ds.NewKey("/verif")), provider.ProvideWorkerCount(2))
+			}
 			maxBatch, thr, cbLive = -1, -1, false
 			if f[2] != "-" {
 				maxBatch = vh.Atoi(f[2])
@@ -257,6 +283,108 @@ func exec(c vh.Case, o *vh.Out) {
 				}
 			}
 			o.Emit("ret=%s calls=[%s] cbs=[%s]", ret, strings.Join(callStrs, ";"), strings.Join(cbs, ","))
+		case "reprov-kperr", "reprov-cancel":
+			if sys == nil {
+				o.Emit("bad-op")
+				break
+			}
+			rt.mu.Lock()
+			rt.calls, rt.fail = nil, map[int]bool{}
+			rt.mu.Unlock()
+			cbs = nil
+			ctx, cancel := context.WithCancel(context.Background())
+			if f[0] == "reprov-kperr" {
+				sys.SetKeyProvider(func(context.Context) (<-chan cid.Cid, error) { return nil, errRouter })
+				o.Kind("keyprovider-error")
+			} else {
+				var ks []cid.Cid
+				for _, t := range f[1:] {
+					ks = append(ks, tab.Cid(t))
+				}
+				sys.SetKeyProvider(chanOf(ks))
+				cancel() // cancelled before the call
+				o.Kind("cancelled-context")
+			}
+			err := sys.Reprovide(ctx)
+			cancel()
+			ret := "nil"
+			if err != nil {
+				ret = "err"
+			} else {
+				o.Fail("early-exit-no-error", "%s: Reprovide returned nil", f[0])
+			}
+			if len(rt.calls) > 0 {
+				o.Fail("early-exit-provides", "%s: %d router calls", f[0], len(rt.calls))
+			}
+			o.Emit("ret=%s calls=[] cbs=[%s]", ret, strings.Join(cbs, ","))
+		case "stat":
+			if sys == nil {
+				o.Emit("bad-op")
+				break
+			}
+			st, _ := sys.Stat()
+			rt.mu.Lock()
+			// monitor: the statistics count exactly the multihashes of successful router calls
+			if int(st.TotalReprovides) != rt.okKeys {
+				o.Fail("stat-total", "TotalReprovides=%d, multihashes in successful router calls=%d", st.TotalReprovides, rt.okKeys)
+			}
+			if int(st.LastReprovideBatchSize) != rt.lastOK && many {
+				o.Fail("stat-last", "LastReprovideBatchSize=%d, last successful call had %d", st.LastReprovideBatchSize, rt.lastOK)
+			}
+			o.Emit("total=%d last=%d ready=%d", st.TotalReprovides, st.LastReprovideBatchSize, rt.readyCalls)
+			rt.mu.Unlock()
+			o.Kind("stat")
+		case "concat", "buffered":
+			var streams []provider.KeyChanFunc
+			var in [][]cid.Cid
+			cur := []cid.Cid{}
+			failing := false
+			flushStream := func() {
+				if failing {
+					streams = append(streams, func(context.Context) (<-chan cid.Cid, error) { return nil, errRouter })
+				} else {
+					streams = append(streams, chanOf(cur))
+					in = append(in, cur)
+				}
+				cur, failing = []cid.Cid{}, false
+			}
+			for _, t := range f[1:] {
+				switch t {
+				case "/":
+					flushStream()
+				case "x":
+					failing = true
+				default:
+					cur = append(cur, tab.Cid(t))
+				}
+			}
+			flushStream()
+			var kf provider.KeyChanFunc
+			if f[0] == "concat" {
+				kf = provider.NewConcatProvider(streams...)
+			} else {
+				kf = provider.NewBufferedProvider(streams[0])
+			}
+			ch, err := kf(context.Background())
+			if err != nil {
+				o.Emit("err")
+				break
+			}
+			var out, want []string
+			for k := range ch {
+				out = append(out, tab.Tok(k))
+			}
+			for _, st := range in {
+				for _, k := range st {
+					want = append(want, tab.Tok(k))
+				}
+			}
+			// monitor: every key of every stream, in order, with its multiplicity
+			if strings.Join(out, ",") != strings.Join(want, ",") {
+				o.Fail(f[0]+"-keys", "got %v want %v", out, want)
+			}
+			o.Kind(f[0])
+			o.Emit("out=[%s]", strings.Join(out, ","))
 		case "prio":
 			var streams []provider.KeyChanFunc
 			var in [][]cid.Cid
@@ -379,6 +507,33 @@ func gen(r *vh.Rand, tier string, n int, emit func(vh.Case)) {
 	}
 	for i := 0; i < n; i++ {
 		c := vh.Case{ID: strconv.Itoa(i)}
+		if r.Chance(1, 12) {
+			pool := make([]string, r.Range(2, 8))
+			for j := range pool {
+				pool[j] = genCid(r)
+			}
+			var toks []string
+			for s, ns := 0, r.Range(1, 4); s < ns; s++ {
+				if s > 0 {
+					toks = append(toks, "/")
+				}
+				if r.Chance(1, 8) {
+					toks = append(toks, "x")
+					continue
+				}
+				for k, m := 0, r.Intn(10); k < m; k++ {
+					toks = append(toks, vh.Pick(r, pool))
+				}
+			}
+			c.Ops = append(c.Ops, strings.TrimSpace("concat "+strings.Join(toks, " ")))
+			var bt []string
+			for k, m := 0, r.Intn(20); k < m; k++ {
+				bt = append(bt, vh.Pick(r, pool))
+			}
+			c.Ops = append(c.Ops, strings.TrimSpace("buffered "+strings.Join(bt, " ")))
+			emit(c)
+			continue
+		}
 		if r.Chance(1, 4) {
 			ns := r.Range(1, 4)
 			pool := make([]string, r.Range(2, 10))
@@ -409,7 +564,7 @@ func gen(r *vh.Rand, tier string, n int, emit func(vh.Case)) {
 		if r.Chance(1, 2) {
 			cb = strconv.Itoa(vh.Pick(r, []int{0, 1, 2, 3, 4, 7, 20, 500, 1, 2, 3, 5, 6, 8, 9, 10, 15, 40, 4, 2}))
 		}
-		c.Ops = append(c.Ops, fmt.Sprintf("new %d %s %s %s", r.Intn(2), mb, cb, genAl(r)))
+		c.Ops = append(c.Ops, fmt.Sprintf("new %d %s %s %s", r.Intn(4), mb, cb, genAl(r)))
 		for j, m := 0, r.Range(1, 3); j < m; j++ {
 			nk := r.Intn(maxKeys)
 			if r.Chance(1, 3) {
@@ -436,7 +591,16 @@ func gen(r *vh.Rand, tier string, n int, emit func(vh.Case)) {
 				stop = strconv.Itoa(r.Intn(3))
 			}
 			c.Ops = append(c.Ops, strings.TrimSpace(fmt.Sprintf("reprov %s %s %s", fail, stop, strings.Join(ks, " "))))
+			switch r.Intn(8) {
+			case 0:
+				c.Ops = append(c.Ops, "reprov-kperr")
+			case 1:
+				c.Ops = append(c.Ops, strings.TrimSpace("reprov-cancel "+strings.Join(ks[:min(len(ks), 5)], " ")))
+			case 2, 3:
+				c.Ops = append(c.Ops, "stat")
+			}
 		}
+		c.Ops = append(c.Ops, "stat")
 		emit(c)
 	}
 }
